@@ -1,6 +1,7 @@
 #!/bin/sh
-# tools/regress.sh [out.md] : run every own mutant (mutants/<cNN>-*.diff) and every seeded change (seeded/<ID>*/patch.diff)
-# against the check of its property (quick tier, VERIF_SEED=0) and write a markdown table. Uses /repo: run nothing else on it meanwhile.
+# tools/regress.sh [out.md] : run every own mutant (mutants/<cNN>-*.diff) and every seeded change (seeded/<ID>*/patch.diff, or
+# patch-rebased.diff where a later fix moved the context) against the check of its property and the checks that caught it when it
+# was seeded (meta.json), quick tier, VERIF_SEED=0, and write a markdown table.  Uses the repository: run nothing else on it meanwhile.
 cd "$(dirname "$0")/.."
 out=${1:-mutants/RESULTS.md}
 {
@@ -13,8 +14,23 @@ for p in mutants/*.diff; do
 done
 for d in seeded/*/; do
   n=$(basename $d); id=$(echo $n | cut -c1-3)
-  r=$(tools/mutate.sh $PWD/$d/patch.diff $id 2>&1 | head -1 | sed 's/|/\//g' | cut -c1-220)
-  echo "| seeded/$n | $id | $r |"
+  pf=$PWD/$d/patch.diff; [ -f $d/patch-rebased.diff ] && pf=$PWD/$d/patch-rebased.diff
+  ids=$(/venv/bin/python - "$d/meta.json" "$id" <<'PY'
+import json, sys
+m = json.load(open(sys.argv[1])); own = sys.argv[2]
+c = m.get('confirmed', {}) if isinstance(m.get('confirmed'), dict) else {}
+ids = [own]
+for key in ('after_strengthening', 'checks', 'first_run'):
+    for x in c.get(key) or []:
+        parts = x.split(':')
+        if parts[0] == 'CAUGHT' and len(parts) > 1 and parts[1] not in ids:
+            ids.append(parts[1])
+print(' '.join(ids))
+PY
+)
+  tools/mutate.sh $pf $ids 2>&1 | grep "CAUGHT\|MISSED\|INCONCLUSIVE\|DOES-NOT" | sed 's/|/\//g' | cut -c1-220 | while read r; do
+    echo "| seeded/$n | $(echo $r | cut -d' ' -f2) | $r |"
+  done
 done
 } > $out
 grep -c CAUGHT $out; grep "MISSED\|INCONCLUSIVE\|DOES-NOT" $out
